@@ -382,6 +382,9 @@ func (em *EModel) finishFiring(r *run) {
 		r.abort("envelope", "model value left the envelope")
 		return
 	}
+	if pr := r.real.PointerReplaced(); pr != "" {
+		r.violate("C04.pointer-replaced", fmt.Sprintf("after firing %s the field %s points to a different object than the one the caller supplied: the write went into a copy, every other holder of the caller's pointer still sees the old number", name, pr))
+	}
 	realC := grl.Canon(r.real.State())
 	modelC := grl.Canon(em.m.S)
 	if realC != modelC {
